@@ -25,6 +25,9 @@ def run_property(pid, tier='quick', root='/repo', overlay=None, quiet=False,
         prog = Program(root, overlay=overlay)
     rep = Report(pid, tier, root, quiet=quiet)
     mod.run(prog, rep, tier)
+    # shared rule: sibling consistency on the property's anchor files
+    from rpsa import siblings
+    rep.attempt(siblings.run, prog, rep, 'R%s.S' % pid[1:])
     return rep
 
 
